@@ -3,7 +3,7 @@
 //     (including nested blocks; not inside expressions),
 //   - rewrites the import "sync" to the scheduler's shim package (same identifiers: Mutex, RWMutex),
 //   - adds the vsched import.
-// Nothing else is changed. Usage: yieldgen <in.go> <out.go> <vsched import path> <sync shim import path>
+// Nothing else is changed. Usage: yieldgen <in.go> <out.go> <vsched import path> <sync shim import path> [returns]
 package main
 
 import (
@@ -95,10 +95,21 @@ func main() {
 			visit(s.Stmt)
 		}
 	}
+	// optional 5th argument "returns": every function additionally gets `defer vsched.Yield("<file>:<func> return")`
+	// as its FIRST statement, i.e. a scheduling point after all of the function's own deferred calls have run and
+	// before control is back in the caller - the gap between a callee handing out a result and the caller
+	// using it inside ONE statement (f(g())) is otherwise not a scheduling point.
+	returns := len(os.Args) > 5 && os.Args[5] == "returns"
 	n := 0
 	for _, d := range f.Decls {
 		if fd, ok := d.(*ast.FuncDecl); ok && fd.Body != nil {
 			rewriteBlock(fd.Body)
+			if returns {
+				lbl := fmt.Sprintf("%s:%s return", base, fd.Name.Name)
+				def := &ast.DeferStmt{Call: &ast.CallExpr{Fun: &ast.SelectorExpr{X: ast.NewIdent("vsched"), Sel: ast.NewIdent("Yield")},
+					Args: []ast.Expr{&ast.BasicLit{Kind: token.STRING, Value: strconv.Quote(lbl)}}}}
+				fd.Body.List = append([]ast.Stmt{def}, fd.Body.List...)
+			}
 			n++
 		}
 	}
